@@ -408,6 +408,32 @@ theorem one_tap_exact_scaled {K : Type} [Field K] [CharZero K] (p : Params) (hp 
   one_tap_exact' p hp ω hω s hs delays _ M hM hd hnd hMC hMN
     (fun k hk => by rw [Hs_scale]; exact mul_ne_zero hc (hH k hk)) x
 
+/-! ## argument forms and queries (R8, R11) -/
+
+/-- **Default argument**: `num_used_subcarriers` left out, given as `None` or given explicitly as
+    `fft_size` is the same call. -/
+theorem params_default_used (fft cp : Int) :
+    setParameters fft cp none = setParameters fft cp (some fft) := setParameters_default fft cp
+
+/-- **Constructor path = setter path = later replacement**: an accepted `set_parameters(f, c, u)` on any
+    existing pair, whatever its history, gives exactly the pair built by `OFDM(f, c, u)` and a new
+    equaliser (the constructor is `set_parameters` on a blank object). -/
+theorem params_constructor_eq_setter {α : Type} [Zero α] [Add α] [Mul α] [Div α] [NatCast α]
+    (F Finv : ℕ → List α → List α) (sc : Params → α) (s : Pair) (ops : List (PairOp α)) (f c : Int)
+    (u : Option Int) (p : Params) (h : setParameters f c u = .ok p) :
+    (stepPair F Finv sc (runPair F Finv sc s ops).1 (.setParams f c u)).1 = freshPair p :=
+  stepPair_set_eq_fresh F Finv sc _ f c u p h
+
+/-- **Queries do not mutate** (R11): `get_used_subcarrier_indexes()`, `_calc_zeropad(n)` — like `modulate`,
+    `demodulate` and `equalize_data` — leave the pair as it is; their answers are functions of the current
+    configuration only. -/
+theorem pair_queries_pure {α : Type} [Zero α] [Add α] [Mul α] [Div α] [NatCast α]
+    (F Finv : ℕ → List α → List α) (sc : Params → α) (s : Pair) (n : Nat) :
+    (stepPair F Finv sc s .usedIndexes).1 = s ∧ (stepPair F Finv sc s (.zeropadOf n)).1 = s ∧
+    (stepPair F Finv sc s .usedIndexes).2 = .ok ((usedIdx s.ofdm.fft s.ofdm.used).map (fun (i : Nat) => (i : α))) ∧
+    (stepPair F Finv sc s (.zeropadOf n)).2 = .ok [((zeropad s.ofdm n : Nat) : α), ((numSymbols s.ofdm n : Nat) : α)] :=
+  ⟨rfl, rfl, rfl, rfl⟩
+
 /-- the witness configuration `OFDM(2, 2, 2)`, taps at delays `0` and `2` (memory = cp = fft) -/
 def witnessParams : Params := ⟨2, 2, 2⟩
 
